@@ -97,7 +97,7 @@ partial def parseV? (inf : VInfo) (x : Sx) : Option VExpr :=
   | "op", o :: es => do
     let o ← IntrinsicOp.ofName? o.atom
     -- the layer gives a meaning to component-wise unary / binary operators and to `&&` / `||` only
-    let inLayer := match irOpSem o with | .un _ | .bin _ | .land | .lor => true | _ => false
+    let inLayer := match irOpSem o with | .un _ | .bin _ | .land | .lor | .assign | .compound _ => true | _ => false
     if !inLayer then none
     let es ← parseVs? inf es
     pure (.op o es)
@@ -154,10 +154,51 @@ def parseVVectors (s : String) : Option (List (List VVal)) :=
 
 def W0 : World := { P := concretePrim, phi := fun _ _ _ => none, sig := fun _ => none }
 
+/-- `(b (expr (op <assignment> place rhs)) (ret (var x)))`: the statement-level assignment of the layer; the answer is the
+exporter's tree of the assignment and the final value of `x` -/
+def handleAssign (inf : VInfo) (body : Sx) (vecs : List (List VVal)) : String :=
+  match body.args with
+  | [st, rt] =>
+    match st.head, st.args, rt.head, rt.args with
+    | "expr", [ex], "ret", [rv] =>
+      match parseV? inf ex, (if rv.head == "var" then rv.args.head?.bind (·.atom.toNat?) else none) with
+      | some e, some xr =>
+        match e with
+        | .op o (.cons lhs (.cons rhs .nil)) =>
+          let isAssign := match irOpSem o with | .assign | .compound _ => true | _ => false
+          if !isAssign then "unsupported not-an-assignment" else
+          let cx := inf.ctx
+          match genV cx e with
+          | .error (.panic site) => "panic " ++ panicCategory site
+          | .error (.unsupported _) => "unsupported"
+          | .ok a =>
+            let env := inf.env
+            let wt := (VIr.assignOK W0.sig cx.vty inf.vvty lhs rhs).isSome && VIr.litOK rhs
+            let outs := vecs.map fun vals =>
+              let bound : List ((Nat × String × VTy) × VVal) := inf.vars.zip vals
+              let σ0 : Store := fun v => match v with
+                | .loc n => match bound.find? (·.1.1 == n) with | some (_, VVal.sc s) => s | _ => .void
+                | .glob _ => .void
+              let ρ : VStore := fun v => match v with
+                | .loc n => match bound.find? (·.1.1 == n) with | some (_, w) => w | none => .vec []
+                | .glob _ => .vec []
+              let fin (r : Option (VVal × Store × VStore)) : String := match r with
+                | some (_, _, ρ1) => showVVal (ρ1 (.loc xr))
+                | none => "none"
+              let s1 := fin (VIr.evalTop W0 ρ e σ0)
+              let s2 := fin (VAst.evalTop W0 env ρ a σ0)
+              if s1 == s2 || !wt then s1 else s1 ++ " MODEL-AST-DIFF(" ++ s2 ++ ")"
+            "vast " ++ showV a ++ " ;; run " ++ " | ".intercalate outs
+        | _ => "unsupported not-an-assignment"
+      | _, _ => "unsupported outside-the-vector-layer"
+    | _, _, _, _ => "unsupported body-shape"
+  | _ => "unsupported body-shape"
+
 def handleVex (vectors ctx ir : String) : String :=
   if (ir.splitOn "unsupported").length > 1 || (ctx.splitOn "unsupported").length > 1 then "unsupported" else
   match parseVCtx? ctx, parseAll ir, parseVVectors vectors with
   | some inf, [x], some vecs =>
+    if x.head == "b" then handleAssign inf x vecs else
     match parseV? inf x with
     | none => "unsupported outside-the-vector-layer"
     | some e =>
@@ -196,6 +237,15 @@ def handle (op : String) (args : List String) : String :=
   | "C01.vwt", [_src, _name, _vectors, ctx, ir] =>
     match parseVCtx? ctx, parseAll ir with
     | some inf, [x] =>
+      if x.head == "b" then
+        match x.args with
+        | [st, _] =>
+          match st.args.head?.bind (parseV? inf) with
+          | some (.op _ (.cons lhs (.cons rhs .nil))) =>
+            if (VIr.assignOK W0.sig inf.ctx.vty inf.vvty lhs rhs).isSome && VIr.litOK rhs then "wt" else "not-wt"
+          | _ => "unsupported"
+        | _ => "unsupported"
+      else
       match parseV? inf x with
       | some e => if (VIr.typeOf W0.sig inf.ctx.vty inf.vvty e).isSome && VIr.litOK e then "wt" else "not-wt"
       | none => "unsupported"
